@@ -33,6 +33,8 @@ pub struct Compiler {
 
     /// Try block depth (for determining if we're in a try block)
     try_depth: usize,
+    /// Number of block scopes (PushScope without PopScope) open at the current position
+    scope_depth: usize,
 
     /// Set of variables that have been hoisted in the current scope
     /// Used to determine if we should emit DeclareVarHoisted or SetVar
@@ -89,6 +91,12 @@ struct LoopContext {
     continue_jumps: Vec<JumpPlaceholder>,
     /// Try depth when this loop started (for finally handling)
     try_depth: usize,
+    /// Block-scope depth at each pending break statement (parallel to break_jumps)
+    break_depths: Vec<usize>,
+    /// Block-scope depth at each pending continue statement (parallel to continue_jumps)
+    continue_depths: Vec<usize>,
+    /// Block-scope depth at the continue target
+    continue_scope_depth: usize,
     /// Iterator register for for-of loops (for iterator close protocol)
     /// When set, break/return/throw should call iterator.return()
     iterator_reg: Option<Register>,
@@ -102,6 +110,7 @@ impl Compiler {
             loop_stack: Vec::new(),
             labels: FxHashMap::default(),
             try_depth: 0,
+            scope_depth: 0,
             hoisted_vars: FxHashSet::default(),
             loop_var_redirects: FxHashMap::default(),
             class_context_stack: Vec::new(),
@@ -252,8 +261,29 @@ impl Compiler {
             continue_target: None,
             continue_jumps: Vec::new(),
             try_depth: self.try_depth,
+            break_depths: Vec::new(),
+            continue_depths: Vec::new(),
+            continue_scope_depth: self.scope_depth,
             iterator_reg,
         });
+    }
+
+    /// Emit PushScope and track the block-scope depth
+    fn push_scope(&mut self) -> Result<(), JsError> {
+        if self.scope_depth >= u8::MAX as usize {
+            return Err(JsError::syntax_error_simple(
+                "Too many nested block scopes",
+            ));
+        }
+        self.builder.emit(Op::PushScope);
+        self.scope_depth += 1;
+        Ok(())
+    }
+
+    /// Emit PopScope and track the block-scope depth
+    fn pop_scope(&mut self) {
+        self.builder.emit(Op::PopScope);
+        self.scope_depth = self.scope_depth.saturating_sub(1);
     }
 
     /// Set the continue target for the current loop and patch any pending continue jumps
@@ -268,12 +298,16 @@ impl Compiler {
 
         // Collect pending continue jumps from all contexts that will share this target
         let mut all_pending_jumps: Vec<JumpPlaceholder> = Vec::new();
+        let mut all_pending_depths: Vec<usize> = Vec::new();
+        let target_scope_depth = self.scope_depth;
 
         // Start from the current (innermost) context and work backwards
         // Set continue target for the current loop
         if let Some(ctx) = self.loop_stack.get_mut(len - 1) {
             ctx.continue_target = Some(target);
+            ctx.continue_scope_depth = target_scope_depth;
             all_pending_jumps.append(&mut ctx.continue_jumps);
+            all_pending_depths.append(&mut ctx.continue_depths);
         }
 
         // Propagate to parent labeled contexts that don't have a continue target yet
@@ -283,7 +317,9 @@ impl Compiler {
                 // Only propagate if this is a labeled context and it doesn't have a continue target
                 if ctx.label.is_some() && ctx.continue_target.is_none() {
                     ctx.continue_target = Some(target);
+                    ctx.continue_scope_depth = target_scope_depth;
                     all_pending_jumps.append(&mut ctx.continue_jumps);
+                    all_pending_depths.append(&mut ctx.continue_depths);
                 } else {
                     // Stop propagating if we hit a context that's not a label wrapper
                     break;
@@ -292,8 +328,10 @@ impl Compiler {
         }
 
         // Patch all pending continue jumps
-        for jump in all_pending_jumps {
+        for (jump, depth) in all_pending_jumps.into_iter().zip(all_pending_depths) {
             self.builder.patch_jump_to(jump, target as JumpTarget);
+            self.builder
+                .patch_jump_scopes(jump, depth.saturating_sub(target_scope_depth) as u8);
         }
     }
 
@@ -303,9 +341,11 @@ impl Compiler {
         if let Some(ref label) = ctx.label {
             self.labels.remove(label);
         }
-        // Patch all break jumps to current position
-        for jump in &ctx.break_jumps {
+        // Patch all break jumps to current position; they leave the scopes opened since
+        for (jump, depth) in ctx.break_jumps.iter().zip(&ctx.break_depths) {
             self.builder.patch_jump(*jump);
+            self.builder
+                .patch_jump_scopes(*jump, depth.saturating_sub(self.scope_depth) as u8);
         }
         Some(ctx)
     }
@@ -362,13 +402,16 @@ impl Compiler {
         let idx = self.builder.emit(Op::Break {
             target: 0,
             try_depth: target_try_depth,
+            scopes: 0,
         });
         let jump = JumpPlaceholder {
             instruction_index: idx,
         };
 
+        let scope_depth = self.scope_depth;
         if let Some(ctx) = self.loop_stack.get_mut(loop_idx) {
             ctx.break_jumps.push(jump);
+            ctx.break_depths.push(scope_depth);
         }
 
         Ok(jump)
@@ -397,23 +440,27 @@ impl Compiler {
             .map(|ctx| ctx.try_depth)
             .unwrap_or(0) as u8;
 
+        let scope_depth = self.scope_depth;
         if let Some(ctx) = self.loop_stack.get_mut(loop_idx) {
             if let Some(target) = ctx.continue_target {
                 // Target is known, emit Continue with known target
                 self.builder.emit(Op::Continue {
                     target: target as u32,
                     try_depth: target_try_depth,
+                    scopes: scope_depth.saturating_sub(ctx.continue_scope_depth) as u8,
                 });
             } else {
                 // Target not yet known, save placeholder
                 let idx = self.builder.emit(Op::Continue {
                     target: 0,
                     try_depth: target_try_depth,
+                    scopes: 0,
                 });
                 let jump = JumpPlaceholder {
                     instruction_index: idx,
                 };
                 ctx.continue_jumps.push(jump);
+                ctx.continue_depths.push(scope_depth);
             }
         }
 
